@@ -421,6 +421,22 @@ class UniversalPrecondition(Precondition):
             f"\n\t{internal_condition_string})"
         )
 
+    def change_signature(self, old_to_new_param_names: Dict[str, str]) -> None:
+        """Change the signature of the quantified condition.
+
+        Note: inside the condition the quantified variable hides an action parameter of the same name,
+            so its occurrences are not renamed.
+
+        :param old_to_new_param_names: the mapping between the old and the new parameter names.
+        """
+        super().change_signature(
+            {
+                old_name: new_name
+                for old_name, new_name in old_to_new_param_names.items()
+                if old_name != self.quantified_parameter
+            }
+        )
+
     def __str__(self):
         return self._print_self()
 
